@@ -127,7 +127,17 @@ def run(ck):
             for rt in rts:
                 rank_traces.append(rt)
                 rank_meta.append(me)
-            if tr["ev"] != model_calls[K]:
+            names_seen = {e["name"] for e in tr["ev"]}
+            names_model = {e["name"] for e in model_calls[K]}
+            if not names_model <= names_seen:
+                # fit() no longer goes through (some of) the public per-phase steps: the control layer cannot be
+                # observed this way; the per-phase steps are still bound by M2 and the marginals by M3
+                note = "fit() was not observed calling %s: control-layer binding skipped" % sorted(names_model - names_seen)
+                if note not in ck.notes:
+                    ck.notes.append(note)
+                fit_traces.pop()
+                fit_meta.pop()
+            elif tr["ev"] != model_calls[K]:
                 j = next((i for i, (a, b) in enumerate(zip(tr["ev"], model_calls[K])) if a != b),
                          min(len(tr["ev"]), len(model_calls[K])))
                 reported["fit"] += 1
